@@ -252,11 +252,41 @@ def numeric(ck, binary, rng):
         if rng.random() < 0.2:
             v[rng.randrange(3)] = v[rng.randrange(3)]
         cases.append(tuple(v))
-    req = ["tresca %s %s %s" % tuple(repr(x) for x in c) for c in cases] + ["voigt"]
+    # sigmaeq on double: states dominated by their hydrostatic part (a deviator norm computed as a difference of
+    # two large numbers cancels there although it is algebraically the same expression)
+    sq = []
+    for N, S in ((1, 3), (2, 4), (3, 6)):
+        for pr in (0.1, -0.7, 1.1e8, 2.0 ** 30, -2.0 ** 40, 1.0):
+            sq.append((N, [pr] * 3 + [0.0] * (S - 3)))
+            for _ in range(2 if ck.quick else 20):
+                dv = [rng.uniform(-1, 1) for _ in range(S)]
+                sq.append((N, [pr + dv[0], pr + dv[1], pr + dv[2]] + dv[3:]))
+        for _ in range(4 if ck.quick else 60):
+            sq.append((N, [rng.uniform(-10, 10) for _ in range(S)]))
+    req = ["tresca %s %s %s" % tuple(repr(x) for x in c) for c in cases] + \
+          ["sigmaeq %d %s" % (N, " ".join(repr(x) for x in v)) for N, v in sq] + ["voigt"]
     p = ck.run([binary], input="\n".join(req) + "\n", timeout=300)
     out = p.stdout.splitlines()
-    stats = {"tresca_cases": len(cases), "voigt_pairs": 0, "voigt_rejected": 0}
-    if p.returncode != 0 or len(out) != len(cases) + 48:
+    stats = {"tresca_cases": len(cases), "sigmaeq_cases": len(sq), "voigt_pairs": 0, "voigt_rejected": 0}
+    if p.returncode == 0 and len(out) == len(cases) + len(sq) + 48:
+        from fractions import Fraction as Fr
+        for (N, v), line in zip(sq, out[len(cases):len(cases) + len(sq)]):
+            x = [Fr(t) for t in v]
+            tr = (x[0] + x[1] + x[2]) / 3
+            d2 = sum((t - tr) ** 2 for t in x[:3]) + sum(t * t for t in x[3:])      # |dev M|_F^2 (Mandel storage)
+            n2 = sum(t * t for t in x)
+            ref = math.sqrt(float(Fr(3, 2) * d2)) if d2 > 0 else 0.0
+            got = float(line.split()[1])
+            tol = 1e-12 * math.sqrt(float(n2))
+            if not (abs(got - ref) <= tol):
+                ck.violation("StensorConcept.ixx:sigmaeq<%d>:accuracy" % N,
+                             "sigmaeq(stensor<%d>) = %r on the double code, sqrt(3/2) |dev M|_F = %r (difference beyond 1e-12 |M|_F: "
+                             "the deviator norm is lost in the hydrostatic part)" % (N, got, ref),
+                             {"input": {"s": [repr(t) for t in v]}, "real_code_result": got, "expected": ref, "tolerance": tol}, True)
+                break
+        out = out[:len(cases)] + out[len(cases) + len(sq):]
+        sq = []
+    if p.returncode != 0 or len(out) != len(cases) + len(sq) + 48:
         ck.violation("numeric:harness", "C01 numeric harness failed (rc=%d, %d lines)" % (p.returncode, len(out)),
                      {"stderr": p.stderr[-2000:]}, False)
         return stats
